@@ -560,4 +560,55 @@ def run(chk):
             raise mir.AnchorMissing("awaited Result-yielding client futures (found %d)" % n)
         return True, "", ["%d awaited results inspected" % n]
     chk.ob("C12.R8:awaited-results-inspected", "no awaited client future's Result is dropped", awaited_results_checked)
+
+    def connection_driven():
+        """hyper hands back (sender, connection): requests sent through the sender only make progress while the connection future is being polled.
+        Each handshake drives the connection it created (awaits it in a spawned task) before handing the sender out."""
+        ev = []
+        for k, b in P.bodies.items():
+            if b.crate != "emit_otlp" or not re.search(r"client::http::http[12]_handshake::\{closure#0\}$", k):
+                continue
+            hs = [c for c in b.calls(normal_only=True) if c.callee.get("name") == "handshake"]
+            sp = [c for c in b.calls(normal_only=True) if c.callee.get("name") == "spawn" and "tokio" in (c.callee.get("path") or "")]
+            if not hs:
+                raise mir.AnchorMissing("the hyper handshake call in %s" % k)
+            if len(sp) < len(hs):
+                return False, "http_handshake performs %d handshakes but spawns %d connection drivers" % (len(hs), len(sp)), [], b.span
+            for s1 in sp:
+                cl = mir.o_root(b.origin(s1.args[0]))
+                if not (cl[0] == "agg" and cl[1].get("def") in P.bodies):
+                    return False, "the spawned task at %s is not an async block" % s1.loc, [], s1.loc
+                tb = P.bodies[cl[1]["def"]]
+                polled = [c for c in tb.calls(normal_only=True) if c.callee.get("name") == "poll" and c.callee.get("trait") == "core::future::future::Future"]
+                if not polled:
+                    return False, ("the task spawned at %s never awaits the connection it captured: requests on this connection are sent into a "
+                                   "connection nobody drives, so they never complete" % s1.loc), [], s1.loc
+                ev.append(s1.loc)
+        if len(ev) < 2:
+            raise mir.AnchorMissing("the HTTP/1 and HTTP/2 handshakes (found %d connection drivers)" % len(ev))
+        return True, "", ev
+    chk.ob("C12.R4:connection-driven", "every HTTP connection that is handed out is being driven by a spawned task", connection_driven)
+
+    def request_size_accounting():
+        """Requests are grouped by size: Channel::push starts a new request when the current one has reached the limit, so the running size must
+        follow the pushes - set to the incoming size when a request is started and increased by it when the event joins the current request."""
+        b = P.impl_method("emit_batcher::Channel", "emit_otlp::client::Channel", "push")
+        stores = []
+        for bb, j2, st in b.statements(normal_only=True):
+            if st["k"] == "assign" and st["place"].get("p") and [p.get("n") for p in st["place"]["p"] if isinstance(p, dict) and "n" in p][-1:] == ["current_request_size_bytes"]:
+                o = b.origin(st["rv"]["op"]) if st["rv"]["k"] == "use" else ("unknown",)
+                stores.append((bb, o))
+        pushes = [c for c in b.calls(normal_only=True) if c.callee.get("name") == "push"]
+        starts = [c for c in pushes if "Vec" in (c.callee.get("path") or "")]
+        joins = [c for c in pushes if c not in starts]
+        if len(stores) < 2:
+            return False, ("Channel::push updates current_request_size_bytes at %d sites (expected two: started and joined): the size that decides when "
+                           "to start a new request no longer follows what was pushed, so requests outgrow max_request_size_bytes or split on every "
+                           "event" % len(stores)), [], b.span
+        for rb in b.return_blocks():
+            for path in b.acyclic_paths(0, rb, limit=2000):
+                if not any(bb in path for bb, o in stores):
+                    return False, "a path through Channel::push adds an event without updating the running request size", [], b.span
+        return True, "", ["%d size updates, one on every path" % len(stores)]
+    chk.ob("C12.R2:request-size-accounting", "the running request size is updated on every push (set on a new request, increased on a joined one)", request_size_accounting)
     return chk
